@@ -758,6 +758,37 @@ def check_late_binding(ctx):
         ctx.holds(rule, ('bisturi/', '*'), 'closures defined inside loops: %d' % n, 'none reads a loop variable late', 0, clause='g')
 
 
+def check_evaluation_context(ctx):
+    """Round 5.  The count / condition / selector a structural field sees is the one computed for
+    this parse by this class:
+    (i) the evaluator of deferred expressions keeps nothing between evaluations (C09-d): a stack
+        shared by all evaluations hands a later parse the operands of an earlier, failed one;
+    (j) the generated drivers index the field table of the packet at hand (pkt.get_fields(), C03-b):
+        a table kept in the generated module is shared by every same-named class, whose Sequence /
+        Optional objects (counts, conditions) then serve the wrong class"""
+    from .c09 import check_exec
+    check_exec(ctx)
+    from .. import drivers as D
+    from ..model import stmt_text
+    for kind in ('pack', 'unpack'):
+        t = [d for d in D.get_drivers(ctx.repo) if d.origin != 'generic' and d.kind == kind]
+        ts = D.template_loop_shape(ctx, 'C08-field-table', ctx.repo, kind)
+        if not t or ts is None:
+            continue
+        t = t[0]
+        a = ts['assign']
+        v = a.value
+        ok = isinstance(v, ast.Subscript) and isinstance(v.value, ast.Name) and v.value.id == 'fields' and isinstance(v.slice, ast.Name) and v.slice.id == '__HOLE_field_index__'
+        src = [s for s in t.pre if isinstance(s, ast.Assign) and isinstance(s.targets[0], ast.Name) and s.targets[0].id == 'fields']
+        st = '%s loop block: %s with %s' % (kind, stmt_text(a), stmt_text(src[0]) if src else 'no table')
+        if ok and src and canon(src[0].value, t.rename) == 'PKT.get_fields()':
+            ctx.holds('C08-field-table', ts['template'].func, st, 'the table of the class of the packet at hand, read on every call', ts['template'].lineno, clause='j')
+        elif ok and src and any(isinstance(x, ast.Name) and x.id.startswith('_') for x in ast.walk(src[0].value)):
+            ctx.violation('C08-field-table', ts['template'].func, st, 'the field table comes from a name of the generated module: one module object serves every same-named class, so a class runs the Sequence / Optional / Ref objects of another', ts['template'].lineno, clause='j', witness=True)
+        else:
+            ctx.undecided('C08-field-table', ts['template'].func, st, 'cannot see that the block indexes pkt.get_fields() of the packet at hand', ts['template'].lineno, clause='j')
+
+
 def check(ctx):
     repo = ctx.repo
     sq, op, rf = repo.cls('Sequence'), repo.cls('Optional'), repo.cls('Ref')
@@ -774,5 +805,6 @@ def check(ctx):
     check_truth_conversion(ctx)
     check_modifier_plumbing(ctx)
     check_late_binding(ctx)
+    check_evaluation_context(ctx)
     ctx.floor('obligations', len(ctx.obs), 20)
     ctx.trust(*ASSUMPTIONS)
